@@ -7,14 +7,14 @@ from mc.core import Acc, Hang
 
 ID = "C09"
 RULE = ("E-INPUT: the C07 datasets (<= 2 data quick, <= 3 thorough; numeric and datetime kinds) x 4 directions x domain "
-        "{derived, explicit} x 3 engine option sets x 2 size/padding/margin sets, each with one of 15 colour/border/tick-cross/dot-radius/canvas/latex "
+        "{derived, explicit} x 5 engine option sets x 2 size/padding/margin sets (plus box sizes with many significant digits, and axes of ~2000 and ~40000 units with explicit domains), each with one of 15 colour/border/tick-cross/dot-radius/canvas/latex "
         "variants (3-digit hex, 6-digit hex, short colour lists that wrap around, functions of the datum, for dot/link/label "
         "background/label text/border colour, one at a time and all together) assigned in rotation so every variant meets every "
         "configuration. Two timelines from deep-copied data and separately built equal scales; SVG and TikZ exports parsed and "
         "compared field by field. Non-trivial: >= 2 layers or >= 2 distinct colours in the picture.")
 ASSUMPTIONS = ["margin scopes are not compared (documented TikZ limitation)",
                "box and tick origins are compared to within the 1-unit truncation both back-ends apply"]
-REQUIRED_COUNTERS = ("pairs", "multi_layer", "multi_colour", "with_border")
+REQUIRED_COUNTERS = ("pairs", "multi_layer", "multi_colour", "with_border", "fractional_width_pairs", "long_axis_pairs")
 
 FN = {
     "fn-text": lambda d: "#f00" if d.get("text") else "#00f",
@@ -56,7 +56,7 @@ def configs():
     for direction in dc.DIRECTIONS:
         for domain in (False, True):
             for ei in range(len(dc.ENGINE)):
-                for si in range(len(dc.SIZES)):
+                for si in range(dc.N_BASE_SIZES):
                     out.append((direction, domain, ei, si, True))
     return out
 
@@ -183,6 +183,15 @@ def run_shard(shard):
                 acc.counters["fractional_width_pairs"] += 1
                 if bad and bad[0] != "SKIP":
                     acc.violation(case, bad[0], bad[1], order=(9, di, ci))
+    if shard["rem"] == 1:  # long axes: ~2000 and ~40000 units, explicit domains
+        for li, (si, direction, dom, data) in enumerate(dc.long_axis_cases(shard["kind"])):
+            case = {"kind": shard["kind"], "data": data, "cfg": [direction, dom, 1 if li % 2 else 0, si, True], "variant": li % len(VARIANTS)}
+            bad = judge(case, acc)
+            acc.evals += 2
+            acc.trans += 2
+            acc.counters["long_axis_pairs"] += 1
+            if bad and bad[0] != "SKIP":
+                acc.violation(case, bad[0], bad[1], order=(10, li, 0))
     if case:
         acc.sample(case)
     return acc
